@@ -364,9 +364,38 @@ class Check(Property):
                     v.append(f"{tag}: to_compact of magnitude {special!r} raised {type(exc).__name__}")
         return v
 
+    def prefix_history_probe(self):
+        """to_compact brings the magnitude into [1, 1000) whenever such a prefix exists - exists NOW: prefixes defined after the
+        first to_compact call count like those defined before it"""
+        import pint
+        v = []
+        for asked_first in (False, True):
+            r = pint.UnitRegistry(None)
+            for line in ("meter = [length] = m", "kilo- = 1000 = k-"):
+                r.define(line)
+            if asked_first:
+                r.Quantity(5000.0, "meter").to_compact()
+            r.define("mega- = 1e6 = M-")
+            r.define("milli- = 1e-3 = m-")
+            for x, want_m, want_u in ((5e6, 5.0, "megameter"), (0.02, 20.0, "millimeter"), (5000.0, 5.0, "kilometer")):
+                q = r.Quantity(x, "meter").to_compact()
+                if not (abs(q.magnitude - want_m) < 1e-9 and str(q.units) == want_u):
+                    v.append(f"C15 prefixes mega- and milli- defined {'after' if asked_first else 'before'} the first to_compact call: "
+                             f"{x} meter -> {q!r}, expected {want_m} {want_u}")
+            d = regs.fresh("float")
+            if asked_first:
+                d.Quantity(5.0e3, "meter").to_compact()
+            d.define("bronto- = 1e33 = Bo-")
+            q = d.Quantity(5e34, "meter").to_compact()
+            if not (1 <= q.magnitude < 1000):
+                v.append(f"C15 bundled registry, bronto- = 1e33 defined {'after' if asked_first else 'before'} the first to_compact call: "
+                         f"5e34 meter -> {q!r}, a prefix bringing the magnitude into [1, 1000) exists")
+        return v
+
     def preferred_probes(self):
         """to_preferred picks a preferred unit of the same dimension (exponents proportional), never another one"""
         v = []
+        v += self.prefix_history_probe()
         u = regs.fresh("float")
         for s, pref in (("meter**2*second", ["meter*second"]), ("meter**3/second", ["meter/second"]), ("meter**2*second**2", ["meter*second"]),
                         ("kilogram*meter/second**2", ["newton"]), ("meter**2/second**2", ["meter/second", "joule"])):
